@@ -18,7 +18,7 @@ from harness import cm, vdoc
 from harness.core import Ctx
 
 _s = {}
-NS = {"t": vdoc.T}
+NS = {"t": vdoc.T, "x": vdoc.X}
 
 
 def schema(ver):
